@@ -306,8 +306,42 @@ def proof_status(family, propfile, timeout=1500):
         st['log'] = p.stdout + p.stderr
         return st
     st['assumptions'] = parse_assumptions(p.stdout, printed)
+    if os.environ.get('VERIF_TIER_EFFECTIVE') == 'thorough' and not st['broken']:
+        st['coqchk'] = run_coqchk(family, propfile)
+        if st['coqchk'].get('error'):
+            st['broken'].append('coqchk: ' + st['coqchk']['error'])
     st['ok'] = not st['broken']
     return st
+
+
+def run_coqchk(family, propfile, timeout=1500):
+    """Thorough tier: re-check the compiled property file and everything it depends on with the
+    independent checker and report its context summary (axioms, type-in-type, unsafe fixpoints)."""
+    flags = []
+    for f in [family] + family_deps(family):
+        flags += ['-Q', os.path.join(COQ, f), 'SFC.' + f]
+    mod = 'SFC.%s.%s' % (family, os.path.basename(propfile)[:-2])
+    try:
+        p = subprocess.run(['coqchk', '-silent', '-o'] + flags + [mod], capture_output=True, text=True, timeout=timeout)
+    except subprocess.TimeoutExpired:
+        return {'error': 'timeout'}
+    out = p.stdout + p.stderr
+    if p.returncode != 0:
+        return {'error': out[-600:]}
+    res = {}
+    cur = None
+    for line in out.split('\n'):
+        m = re.match(r'^\* (Axioms|Constants/Inductives relying on type-in-type|Constants/Inductives relying on unsafe \(co\)fixpoints|Inductives whose positivity is assumed|Theory):\s*(.*)$', line)
+        if m:
+            cur = m.group(1)
+            res[cur] = [] if m.group(2).strip() in ('', '<none>') else [m.group(2).strip()]
+        elif cur and line.strip() and not line.startswith('*') and not line.startswith('='):
+            res[cur].append(line.strip())
+    for k in ('Constants/Inductives relying on type-in-type', 'Constants/Inductives relying on unsafe (co)fixpoints',
+              'Inductives whose positivity is assumed'):
+        if res.get(k):
+            return {'error': '%s: %s' % (k, res[k][:3]), 'summary': res}
+    return {'summary': res}
 
 
 _case_counter = [0]
@@ -537,6 +571,8 @@ def conclude(ctx, level, out):
             out.proof.get('family'), out.proof.get('propfile')))
         cov['theorems'] = thms
         cov['print_assumptions'] = out.proof.get('assumptions')
+        if out.proof.get('coqchk'):
+            cov['coqchk_context_summary'] = out.proof['coqchk'].get('summary')
         cov['proof_broken'] = out.proof.get('broken')
     cov['trusted_base'] = out.trusted_base or []
     cov.update(out.extra)
